@@ -129,6 +129,10 @@ func checkC16(c c16Case) string {
 		case "stl25", "stl30":
 			s.Metadata.Title, s.Metadata.STLOriginalEpisodeTitle, s.Metadata.STLTranslatorName = long, long, long
 			s.Metadata.STLPublisher, s.Metadata.STLEditorContactDetails = long, long
+			if c.Format == "stl25" && c.TCPUnits == 0 {
+				// a frame rate EBU STL has no disk format code for (inherited from TTML, say): the file is a 25 fps file
+				s.Metadata.Framerate = []int{24, 50, 60}[c.Meta%3]
+			}
 		}
 	}
 	var buf bytes.Buffer
